@@ -70,6 +70,7 @@ class RSocketClient(RSocketBase):
         logger().debug('%s: connecting', self._log_identifier())
         self._is_closing = False
         self._reset_internals()
+        self._queue_setup_frame()  # before the sender can run: SETUP precedes anything requested while connecting
         self._start_tasks()
 
         try:
